@@ -975,7 +975,9 @@ func c17Interleaved(r *mon.Run) {
 		s := keyproof.NewValidKeyProofStructure(n, []*big.Int{bi(36), bi(49)})
 		proofs := make([]keyproof.ValidKeyProof, parties)
 		for i := range proofs {
+			inflight(fmt.Sprintf("proof #%d built on one structure object for the interleaved verifications", i))
 			built := s.BuildProof(pp, qp)
+			inflight("")
 			jb, err := json.Marshal(built)
 			if err != nil || json.Unmarshal(jb, &proofs[i]) != nil {
 				r.Inconclusive("key proof does not survive a JSON round trip")
@@ -994,6 +996,7 @@ func c17Interleaved(r *mon.Run) {
 		res := make([]bool, parties)
 		pvs := make([]any, parties)
 		var wg sync.WaitGroup
+		inflight(fmt.Sprintf("%d proofs verified at the same time on one structure object", parties))
 		for i := 0; i < parties; i++ {
 			wg.Add(1)
 			go func(i int) {
@@ -1003,6 +1006,7 @@ func c17Interleaved(r *mon.Run) {
 			}(i)
 		}
 		wg.Wait()
+		inflight("")
 		keyproof.Follower = old
 		for i := 0; i < parties; i++ {
 			desc := fmt.Sprintf("%d verifications on one structure, structure checks before rebuilding, proof #%d", parties, i)
